@@ -11,7 +11,7 @@
 import AgeModel.GoSem
 import AgeModel.File
 import AgeModel.Extracted.Funcs
-import Proofs.GoTieFormat
+import Proofs.GoTieLines
 namespace AgeModel
 namespace GoTie
 open Extracted
